@@ -159,6 +159,109 @@ static void paramProbe(Rng &rng, CaseResult &r, const std::vector<int> &which, i
   r.sig = std::string(en[entry]) + ":" + (which.size() == 1 ? names : "combo" + std::to_string(which.size()));
 }
 
+
+// Randomised violation of ONE documented constraint on top of a random ACCEPTED parameter set: independent model of
+// the ranges (taken from the documentation / messages of the parameter check), random distance beyond the bound.
+static std::string violateOne(Rng &rng, ColoquinteParameters &p) {
+  auto below = [&](double lo) { double d = std::max(std::fabs(lo), 1e-6) * std::pow(10.0, rng.unif(-2, 2)); return lo - std::max(d, 1e-3 * std::max(1.0, std::fabs(lo))); };
+  auto above = [&](double hi) { double d = std::max(std::fabs(hi), 1e-6) * std::pow(10.0, rng.unif(-2, 2)); return hi + std::max(d, 1e-3 * std::max(1.0, std::fabs(hi))); };
+  auto &g = p.global;
+  auto &rl = g.roughLegalization;
+  auto &cm = g.continuousModel;
+  auto &pe = g.penalty;
+  int k = (int)rng.range(0, 46);
+  switch (k) {
+    case 0: pe.cutoffDistance = rng.chance(0.5) ? 0.0 : -rng.unif(0, 10); return "penalty.cutoffDistance below 1e-6";
+    case 1: pe.cutoffDistanceUpdateFactor = below(0.8); return "penalty.cutoffDistanceUpdateFactor < 0.8";
+    case 2: pe.cutoffDistanceUpdateFactor = above(1.2); return "penalty.cutoffDistanceUpdateFactor > 1.2";
+    case 3: pe.areaExponent = below(0.49); return "penalty.areaExponent < 0.49";
+    case 4: pe.areaExponent = above(1.01); return "penalty.areaExponent > 1.01";
+    case 5: pe.initialValue = rng.chance(0.5) ? 0.0 : -rng.unif(0, 5); return "penalty.initialValue <= 0";
+    case 6: pe.updateFactor = rng.chance(0.3) ? 1.0 : below(1.0); return "penalty.updateFactor <= 1";
+    case 7: pe.updateFactor = rng.chance(0.3) ? 2.0 : above(2.0); return "penalty.updateFactor >= 2";
+    case 8: pe.targetBlending = below(0.1); return "penalty.targetBlending < 0.1";
+    case 9: pe.targetBlending = above(1.1); return "penalty.targetBlending > 1.1";
+    case 10: cm.approximationDistance = rng.chance(0.5) ? 0.0 : -rng.unif(0, 10); return "continuous.approximationDistance below 1e-6";
+    case 11: cm.approximationDistance = above(1.0e3); return "continuous.approximationDistance > 1e3";
+    case 12: cm.approximationDistanceUpdateFactor = below(0.8); return "continuous.approximationDistanceUpdateFactor < 0.8";
+    case 13: cm.approximationDistanceUpdateFactor = above(1.2); return "continuous.approximationDistanceUpdateFactor > 1.2";
+    case 14: cm.maxNbConjugateGradientSteps = -(int)rng.range(0, 1000); return "continuous.maxNbConjugateGradientSteps <= 0";
+    case 15: cm.conjugateGradientErrorTolerance = rng.chance(0.5) ? 0.0 : 1e-8 * rng.unif(0, 0.9); return "continuous.conjugateGradientErrorTolerance < 1e-8";
+    case 16: cm.conjugateGradientErrorTolerance = above(1.0); return "continuous.conjugateGradientErrorTolerance > 1";
+    case 17: rl.nbSteps = -(int)rng.range(1, 100); return "rough.nbSteps < 0";
+    case 18: rl.binSize = below(1.0); return "rough.binSize < 1";
+    case 19: rl.binSize = above(25.0); return "rough.binSize > 25";
+    case 20: rl.lineReoptSize = -(int)rng.range(0, 5); return "rough.lineReoptSize < 1";
+    case 21: rl.diagReoptSize = -(int)rng.range(0, 5); return "rough.diagReoptSize < 1";
+    case 22: rl.squareReoptSize = -(int)rng.range(0, 5); return "rough.squareReoptSize < 1";
+    case 23: rl.lineReoptOverlap = -(int)rng.range(0, 5); return "rough.lineReoptOverlap < 1";
+    case 24: rl.diagReoptOverlap = -(int)rng.range(0, 5); return "rough.diagReoptOverlap < 1";
+    case 25: rl.squareReoptOverlap = -(int)rng.range(0, 5); return "rough.squareReoptOverlap < 1";
+    case 26: rl.lineReoptSize = 64 + (int)rng.range(1, 100); rl.lineReoptOverlap = 1; return "rough.lineReoptSize > 64";
+    case 27: rl.diagReoptSize = 64 + (int)rng.range(1, 100); rl.diagReoptOverlap = 1; return "rough.diagReoptSize > 64";
+    case 28: rl.squareReoptSize = 8 + (int)rng.range(1, 20); rl.squareReoptOverlap = 1; return "rough.squareReoptSize > 8";
+    case 29: rl.lineReoptSize = rl.diagReoptSize = rl.squareReoptSize = 1; if (rng.chance(0.5)) rl.unidimensionalTransport = false; else { rl.unidimensionalTransport = true; rl.costModel = (LegalizationModel)rng.range(1, 5); } return "rough: every reopt size 1 without L1 1-D transport";
+    case 30: rl.lineReoptSize = (int)rng.range(2, 64); rl.lineReoptOverlap = rl.lineReoptSize + (int)rng.range(0, 5); return "rough.lineReoptOverlap >= lineReoptSize";
+    case 31: rl.diagReoptSize = (int)rng.range(2, 64); rl.diagReoptOverlap = rl.diagReoptSize + (int)rng.range(0, 5); return "rough.diagReoptOverlap >= diagReoptSize";
+    case 32: rl.squareReoptSize = (int)rng.range(2, 8); rl.squareReoptOverlap = rl.squareReoptSize + (int)rng.range(0, 5); return "rough.squareReoptOverlap >= squareReoptSize";
+    case 33: rl.quadraticPenalty = rng.chance(0.5) ? below(0.0) : above(1.0); return "rough.quadraticPenalty outside [0,1]";
+    case 34: rl.targetBlending = rng.chance(0.5) ? below(-0.1) : above(0.9); return "rough.targetBlending outside [-0.1,0.9]";
+    case 35: g.maxNbSteps = -(int)rng.range(1, 100); return "global.maxNbSteps < 0";
+    case 36: g.nbInitialSteps = -(int)rng.range(1, 100); return "global.nbInitialSteps < 0";
+    case 37: g.nbInitialSteps = g.maxNbSteps + (int)rng.range(0, 10); return "global.nbInitialSteps >= maxNbSteps";
+    case 38: g.nbStepsBeforeRoughLegalization = -(int)rng.range(0, 10); return "global.nbStepsBeforeRoughLegalization < 1";
+    case 39: g.gapTolerance = rng.chance(0.5) ? below(0.0) : above(1.0); return "global.gapTolerance outside [0,1]";
+    case 40: g.distanceTolerance = below(0.0); return "global.distanceTolerance < 0";
+    case 41: g.exportBlending = rng.chance(0.5) ? below(-0.5) : above(1.5); return "global.exportBlending outside [-0.5,1.5]";
+    case 42: g.noise = rng.chance(0.5) ? below(0.0) : above(2.0); return "global.noise outside [0,2]";
+    case 43: if (rng.chance(0.5)) { g.penaltyUpdateDistance = rng.chance(0.5) ? 0.0 : -rng.unif(0, 10); return "global.penaltyUpdateDistance <= 0"; } g.penaltyUpdateBackoff = below(1.0); return "global.penaltyUpdateBackoff < 1";
+    case 44: if (rng.chance(0.3)) { p.legalization.costModel = (LegalizationModel)rng.range(1, 5); return "legalization.costModel != L1"; }
+             if (rng.chance(0.5)) { p.legalization.orderingWidth = rng.chance(0.5) ? below(-1.0) : above(2.0); return "legalization.orderingWidth outside [-1,2]"; }
+             p.legalization.orderingY = rng.chance(0.5) ? below(-0.2) : above(0.2); return "legalization.orderingY outside [-0.2,0.2]";
+    case 45: { int f = (int)rng.range(0, 2); int v = -(int)rng.range(1, 50); if (f == 0) { p.detailed.nbPasses = v; return "detailed.nbPasses < 0"; } if (f == 1) { p.detailed.localSearchNbNeighbours = v; return "detailed.localSearchNbNeighbours < 0"; } p.detailed.localSearchNbRows = v; return "detailed.localSearchNbRows < 0"; }
+    default: { int f = (int)rng.range(0, 3); if (f == 0) { p.detailed.shiftNbRows = -(int)rng.range(0, 5); return "detailed.shiftNbRows < 1"; } if (f == 1) { p.detailed.shiftMaxNbCells = -(int)rng.range(1, 50); return "detailed.shiftMaxNbCells < 0"; } if (f == 2) { p.detailed.reorderingNbRows = -(int)rng.range(0, 5); return "detailed.reorderingNbRows < 1"; } p.detailed.reorderingMaxNbCells = -(int)rng.range(1, 50); return "detailed.reorderingMaxNbCells < 0"; }
+  }
+}
+
+static void randomParamProbe(Rng &rng, CaseResult &r, int entry) {
+  Circuit c0 = smallCircuit(rng);
+  std::string pdesc, gdesc;
+  ColoquinteParameters p = genParams(rng, true, &pdesc);
+  genGlobalParams(rng, p, &gdesc, 10);
+  const char *en[3] = {"placeGlobal", "legalize", "placeDetailed"};
+  bool baseAccepted = true;
+  try { p.check(); } catch (const std::exception &) { baseAccepted = false; }
+  std::string what = violateOne(rng, p);
+  if (r.needSample()) r.sample = vf::J::obj().kv("probe", "random accepted parameter set with one constraint violated").kv("violated", what).kv("entry", en[entry]).kv("base", pdesc + " | " + gdesc).kraw("circuit", circuitJson(c0)).str();
+  if (r.dumpOnly) return;
+  if (!baseAccepted) { r.count("base_set_not_accepted"); r.sig = "base-rejected"; return; }
+  bool rejected = false;
+  try { p.check(); } catch (const std::exception &) { rejected = true; }
+  if (!rejected) r.fail("C19:out-of-range-parameter-accepted-by-check", what + " | base: " + gdesc);
+  Circuit c = c0;
+  int ncb = 0;
+  PlacementCallback cb = [&](PlacementStep) { ++ncb; };
+  bool threw = false;
+  if (rejected || entry != 0) {  // with an accepted bad set global placement may not terminate: not attempted
+    try {
+      if (entry == 0) c.placeGlobal(p, cb);
+      else if (entry == 1) c.legalize(p, cb);
+      else c.placeDetailed(p, cb);
+    } catch (const std::exception &) {
+      threw = true;
+    } catch (...) {
+      r.fail("C19:non-std-exception", what);
+      threw = true;
+    }
+    if (!threw) r.fail("C19:rejected-parameters-but-call-returned", std::string(en[entry]) + " returned normally with " + what);
+    if (ncb != 0) r.fail("C19:work-done-before-parameter-check", std::string(en[entry]) + " ran " + std::to_string(ncb) + " callbacks with " + what);
+    std::string fd = frameDiff(c0, c, true);
+    if (!fd.empty() || !samePlacement(c0, c)) r.fail("C19:circuit-modified-with-rejected-parameters", std::string(en[entry]) + ": " + (fd.empty() ? "placement changed" : fd) + " with " + what);
+  }
+  r.nontrivial = true;
+  r.sig = std::string(en[entry]) + ":" + what;
+}
+
 // wrong-length vectors for every setter, inconsistent / out-of-range nets
 static void setterProbe(Rng &rng, CaseResult &r, uint64_t idx) {
   Circuit c0 = smallCircuit(rng);
@@ -288,6 +391,7 @@ int main(int argc, char **argv) {
                      for (int i = 0; i < k; ++i) which.push_back((int)rng.range(0, (long long)nb - 1));
                      paramProbe(rng, r, which, (int)(idx % 3));
                    }, 60});
+  parts.push_back({"c19.params.random", [](uint64_t idx, Rng &rng, CaseResult &r) { randomParamProbe(rng, r, (int)(idx % 3)); }, 60});
   parts.push_back({"c19.setters", [](uint64_t idx, Rng &rng, CaseResult &r) { setterProbe(rng, r, idx); }, 30});
   parts.push_back({"c19.nets", [](uint64_t idx, Rng &rng, CaseResult &r) { netProbe(rng, r, idx); }, 30});
   if (argc == 2 && std::string(argv[1]) == "--count-bad-params") { printf("%zu\n", badParams().size()); return 0; }
